@@ -14,6 +14,7 @@
 #include <cstdio>
 #include <cstring>
 #include <cmath>
+#include <filesystem>
 #include <fstream>
 #include <functional>
 #include <iostream>
@@ -114,6 +115,26 @@ inline std::string saveNif(NifFile& n, bool raw) {
 	if (raw) { o.optimize = false; o.sortBlocks = false; }
 	n.Save(os, o);
 	return os.str();
+}
+
+// the file-name routes of Load / Save (scratch files under <verif>/.cache/tmp, removed at once)
+std::string scratchPath(const char* tag);
+inline int loadNifByName(NifFile& n, const std::string& b, bool terrain = false) {
+	std::string p = scratchPath("load");
+	{ std::ofstream f(p, std::ios::binary); f.write(b.data(), (std::streamsize)b.size()); }
+	NifLoadOptions o; o.isTerrain = terrain;
+	int rc = n.Load(std::filesystem::path(p), o);
+	std::remove(p.c_str());
+	return rc;
+}
+inline std::string saveNifByName(NifFile& n, bool raw) {
+	std::string p = scratchPath("save");
+	NifSaveOptions o;
+	if (raw) { o.optimize = false; o.sortBlocks = false; }
+	n.Save(std::filesystem::path(p), o);
+	std::string out = slurp(p);
+	std::remove(p.c_str());
+	return out;
 }
 
 struct HookScope {
